@@ -235,6 +235,10 @@ def s6(ck, an):
     from rules import C14
     from sa.report import Renamed
     C14.s5(Renamed(ck, "C14:"), an)
+    # "discontinued" reaches the exchange: each future yields its discontinuation event, and the events an environment adds are (re-)filed on every build
+    from rules import C04, C11, ledger
+    C11.s5(Renamed(ck, "C11:"), an)
+    C04.partitions(ledger._Only(Renamed(ck, "C04:"), {"partitions-always-rebuilt", "create-partitions-callers"}), an)
     fa = an.fa("Exchange.process_EventNBBO")
     for c in fa.calls_to("LimitOrderBook.update"):
         preds = fa.guard_predicates(c)
